@@ -295,6 +295,36 @@ let handle_ft = function
       Printf.sprintf "%s %s %s" id (hex_of_bytes out) (String.concat "," (List.map show_v vs))
   | _ -> failwith "bad FT line"
 
+(* ---------- FW: a Translator over a short-writing / failing writer ----------
+   FW <id> <to> <k|-> <wsched: comma list, cap-1 per accepted count> <call>;<call>;...   (calls as for FT)
+   each document's bytes are handed over as two write_all calls (split in the middle) *)
+
+let handle_fw = function
+  | [ id; to_; k; sched; calls ] ->
+      let sch = Array.of_list (ints_of sched) in
+      let wsched (n : nat) : nat =
+        let i = int_of_nat n in
+        if i < Array.length sch then nat_of_int sch.(i) else O
+      in
+      let parse_doc d =
+        let h = String.sub d 1 (String.length d - 1) in
+        let bs = bytes_of_hex (if h = "" then "-" else h) in
+        let n = List.length bs / 2 in
+        let rec split i l acc = if i = 0 then (List.rev acc, l) else match l with [] -> (List.rev acc, []) | x :: r -> split (i - 1) r (x :: acc) in
+        let a, b = split n bs [] in
+        { chunks = [ a; b ]; finishes = d.[0] = 'o' }
+      in
+      let parse_call c =
+        match String.split_on_char ':' c with
+        | [ ok; ds ] -> { wdocs = List.map parse_doc (if ds = "" then [] else String.split_on_char ',' ds); winput_ok = ok = "1" }
+        | _ -> failwith "bad call"
+      in
+      let cs = if calls = "-" then [] else List.map parse_call (String.split_on_char ';' calls) in
+      let kk = if k = "-" then None else Some (nat_of_int (int_of_string k)) in
+      let out, vs = translate_history_w wsched kk (fmt_of_string to_) cs in
+      Printf.sprintf "%s %s %s" id (hex_of_bytes out) (String.concat "," (List.map (fun b -> if b then "ok" else "err") vs))
+  | _ -> failwith "bad FW line"
+
 let () =
   try
     while true do
@@ -306,6 +336,7 @@ let () =
           | "H" :: rest -> handle_h rest
           | "MS" :: rest -> handle_ms rest
           | "FT" :: rest -> handle_ft rest
+          | "FW" :: rest -> handle_fw rest
           | "T" :: rest -> handle_t rest
           | "UD" :: rest -> handle_ud rest
           | "UR" :: rest -> handle_ur rest
